@@ -104,6 +104,12 @@ public:
         << (m->pe_rxn ? m->pe_rxn : "-") << " " << (m->elt->primary ? m->elt->primary->s->name : "-") << " "
         << (m0 ? m0->s->name : "-") << " " << m->primary << " " << hexd(m->elt->primary ? m->elt->primary->total_primary : 0.0) << "\n";
     }
+    // isotope bookkeeping of add_isotopes(): moles set aside per minor isotope (ISOTOPES databases)
+    for (size_t i = 0; i < e->master_isotope.size(); i++) {
+      class master_isotope* mi = e->master_isotope[i];
+      if (!mi || !mi->name || !mi->elt) continue;
+      o << "mi " << mi->name << " " << mi->elt->name << " " << mi->minor_isotope << " " << hexd(mi->moles) << "\n";
+    }
     for (std::map<std::string, CReaction>::iterator it = e->pe_x.begin(); it != e->pe_x.end(); ++it) {
       o << "pe " << it->first;
       rxn(o, it->second);
@@ -113,7 +119,7 @@ public:
       class species* s = e->s_x[i];
       o << "s " << s->name << " " << s->type << " " << hexd(s->z) << " " << hexd(s->lm) << " " << hexd(s->lg) << " " << hexd(s->la)
         << " " << hexd(s->lk) << " " << hexd(s->moles) << " " << hexd(s->alk) << " " << s->gflag << " "
-        << (s->primary ? 1 : 0) << (s->secondary ? 1 : 0);
+        << (s->primary ? 1 : 0) << (s->secondary ? 1 : 0) << " " << hexd(s->h) << " " << hexd(s->o);
       rxn(o, s->rxn_x);
       o << "\n";
     }
